@@ -13,6 +13,25 @@ PROP = "C35"; LEVEL = "exploration"
 Fr = fractions.Fraction
 
 
+def sf_q2m(mp, q):
+    return mp.mpf(q.numerator) / q.denominator
+
+
+def eval_identified(mp, expr):
+    """evaluate an identify() result at the working precision: integer literals become exact mpf numbers"""
+    import ast
+    tree = ast.parse(expr, mode="eval")
+
+    class Wrap(ast.NodeTransformer):
+        def visit_Constant(self, node):
+            if isinstance(node.value, int) and not isinstance(node.value, bool):
+                return ast.copy_location(ast.Call(func=ast.Name(id="_num", ctx=ast.Load()), args=[node], keywords=[]), node)
+            return node
+    tree = ast.fix_missing_locations(Wrap().visit(tree))
+    ns = {"_num": mp.mpf, "sqrt": mp.sqrt, "exp": mp.exp, "log": mp.log, "pi": +mp.pi, "e": +mp.e, "__builtins__": {}}
+    return eval(compile(tree, "<identify>", "eval"), ns)
+
+
 def gen(chk, mpmath, rng):
     mp = mpmath.mp
     for i in range(chk.pick(160, 4000)):
@@ -54,6 +73,37 @@ def gen(chk, mpmath, rng):
                 js.append(ex.lt(0, ex.add(*[ex.ab(int(ci)) for ci in res])))
                 yield ex.allj(*js), {"key": "pslq/generic", "found": [int(v) for v in res], "p": p, "tol_bits": str(tol), "maxcoeff": maxcoeff,
                                      "what": "pslq returned a vector that is not a relation within tol*||x|| / maxcoeff"}
+            elif kind < 0.88:
+                if p > 120:
+                    p = 80; mp.prec = p
+                # identify: every returned expression must evaluate (integers read as exact numbers, functions and constants
+                # from the context) to x within the tolerance
+                r1 = Fr(rng.randint(2, 12)); s1 = rng.randint(1, 4); r2 = Fr(rng.randint(1, 9), rng.randint(1, 9))
+                form = rng.choice(["exp-sqrt", "exp+sqrt", "sqrt", "-sqrt", "quad", "rat*pi", "pi*exp-sqrt", "exp-sqrt/pi", "log", "rat", "e^rat"])
+                consts = []
+                S = mp.sqrt(sf_q2m(mp, r1)) / s1
+                if form == "exp-sqrt": x = mp.exp(-S)
+                elif form == "exp+sqrt": x = mp.exp(S)
+                elif form == "sqrt": x = S
+                elif form == "-sqrt": x = -S
+                elif form == "quad": x = (rng.randint(-5, 5) + mp.sqrt(sf_q2m(mp, r1))) / s1 * rng.choice([1, -1])
+                elif form == "rat*pi": x = sf_q2m(mp, r2) * mp.pi; consts = ["pi"]
+                elif form == "pi*exp-sqrt": x = mp.pi * mp.exp(-S); consts = ["pi"]
+                elif form == "exp-sqrt/pi": x = mp.exp(-S) / mp.pi; consts = ["pi"]
+                elif form == "log": x = mp.log(sf_q2m(mp, r1)) * rng.choice([1, -1]); consts = ["log(%d)" % r1.numerator]
+                elif form == "rat": x = sf_q2m(mp, r2) * rng.choice([1, -1])
+                else: x = mp.exp(sf_q2m(mp, r2) * rng.choice([1, -1])); consts = ["e"]
+                full = rng.random() < 0.4
+                res = mp.identify(x, consts, full=full)
+                if not res:
+                    yield None; continue
+                tol = mp.eps ** 0.7
+                js = []
+                for expr in (res if full else [res]):
+                    v = eval_identified(mp, expr)
+                    js.append(ex.le(ex.ab(ex.sub(v, x)), ex.mul(tol, ex.mx(ex.ab(x), 1), 256)))
+                yield ex.allj(*js), {"key": "identify/" + form, "x": mp.nstr(x, 20), "constants": consts, "found": res, "p": p,
+                                     "what": "an expression returned by identify does not evaluate to x within 256 * eps^0.7"}
             else:
                 # findpoly on an algebraic number: root of a planted integer polynomial
                 deg = rng.randint(1, 3)
@@ -75,9 +125,9 @@ def gen(chk, mpmath, rng):
 
 def main():
     oblcommon.run(PROP, LEVEL, gen,
-                  "planted and generic pslq instances and findpoly on algebraic numbers; distinct = (inputs, tolerance, precision)",
+                  "planted and generic pslq instances, findpoly on algebraic numbers, identify on square roots / exponentials / logarithms / multiples of constants; distinct = (inputs, tolerance, precision)",
                   ["'precision suffices' for planted relations: <= 5 terms, one-digit coefficients, >= 53 bits, tol = 2^(-3p/4)",
-                   "identify() is not judged (its output grammar is not modelled)"])
+                   "identify(): each returned expression is evaluated by Python with integer literals read as exact numbers and sqrt/exp/log/pi/e taken from the library (relational)"])
 
 
 replay = oblcommon.replay
